@@ -40,6 +40,7 @@ mod blocksim;
 mod checks;
 mod driversim;
 mod e2e;
+mod e2e_checks;
 mod checks_pure;
 mod pure;
 mod cli;
